@@ -20,6 +20,7 @@ func main() {
 	max := flag.Int("max", 0, "max behaviours")
 	budget := flag.Duration("budget", 0, "budget")
 	full := flag.Bool("full", false, "every request kind at every step")
+	subEvery := flag.Int("sub", 0, "every k-th behaviour runs with a subscription per requester")
 	flag.Parse()
 	f, err := os.Open(*beh)
 	if err != nil {
@@ -72,6 +73,7 @@ func main() {
 		os.Exit(2)
 	}
 	r.Full = *full
+	r.SubEvery = *subEvery
 	start := time.Now()
 	for i, b := range all {
 		if *budget > 0 && time.Since(start) > *budget {
